@@ -9,7 +9,10 @@ both argument lists with their declarations (c21_item) and hands metadata +
 both item lists back to TLC (Trace_LFRicArgOrder.tla), which decides the
 clauses SameCount, CallMatchesStub, StubFollowsDoc, CallFollowsDoc, and - for
 the PSyIR form of the call (KernCallArgList.psyir_arglist, the expressions and
-symbol types that are passed) - PsyirCallMatchesStub, PsyirCallMatchesText.'''
+symbol types that are passed) - PsyirCallMatchesStub, PsyirCallMatchesText.
+The family also contains MULTI-KERNEL invokes (LFRicArgOrder!MultiSetOf) in
+which one actual argument is passed to two or three kernels whose metadata for
+it differ: every call is judged against the metadata of its own kernel.'''
 import contextlib
 import io
 import json
@@ -34,65 +37,111 @@ def _procs():
 
 
 # ------------------------------------------------------------------- workers
-def _one(md, md_id, tmp):
-    '''Generate and itemise stub and call for one metadata.'''
+def _invoke(kernels, alg_id, tmp):
+    '''Generate and itemise the stubs and the calls of ONE invoke whose
+    kernels are [(md, md_id, names)] (names: c21_gen.names_for).  Returns one
+    case per kernel call.'''
     from psyclone.parse.algorithm import parse
     from psyclone.psyGen import PSyFactory
     from psyclone.gen_kernel_stub import generate
     from psyclone.errors import GenerationError, InternalError
     from psyclone.parse.utils import ParseError
-    mod, _, code = gen.kernel_names(md_id)
-    kpath = os.path.join(tmp, mod + ".f90")
-    apath = os.path.join(tmp, f"c21alg{md_id}.f90")
-    with open(kpath, "w") as f:
-        f.write(gen.kernel_text(md, md_id))
-    with open(apath, "w") as f:
-        f.write(gen.algorithm_text(md, md_id))
-    res = {"id": md_id, "md": md, "hs": False, "stub": [], "hc": False,
-           "call": [], "hp": False, "pcall": [], "notes": {}}
+    from psyclone.domain.lfric import KernCallArgList, LFRicKern
+    refusals = (GenerationError, InternalError, ParseError, NotImplementedError)
+    paths = []
+    results = []
     sink = io.StringIO()
-    try:
-        with contextlib.redirect_stdout(sink):
-            text = str(generate(kpath, api="lfric"))
-    except (GenerationError, InternalError, ParseError,
-            NotImplementedError) as err:
-        res["notes"]["stub_refused"] = type(err).__name__ + ": " + str(err)[:160]
-    else:
+    for md, md_id, _ in kernels:
+        mod, _, code = gen.kernel_names(md_id)
+        kpath = os.path.join(tmp, mod + ".f90")
+        paths.append(kpath)
+        with open(kpath, "w") as f:
+            f.write(gen.kernel_text(md, md_id))
+        res = {"id": md_id, "md": md, "hs": False, "stub": [], "hc": False,
+               "call": [], "hp": False, "pcall": [], "notes": {}}
+        results.append(res)
         try:
-            res["stub"] = itemise_stub(text, md, code)
-            res["hs"] = True
-        except Unsupported as err:
-            res["notes"]["stub_unsupported"] = str(err)
+            with contextlib.redirect_stdout(sink):
+                text = str(generate(kpath, api="lfric"))
+        except refusals as err:
+            res["notes"]["stub_refused"] = (type(err).__name__ + ": "
+                                            + str(err)[:160])
+        else:
+            try:
+                res["stub"] = itemise_stub(text, md, code)
+                res["hs"] = True
+            except Unsupported as err:
+                res["notes"]["stub_unsupported"] = str(err)
+    apath = os.path.join(tmp, f"c21alg{alg_id}.f90")
+    paths.append(apath)
+    with open(apath, "w") as f:
+        f.write(gen.invoke_text(kernels, alg_id))
     try:
         with contextlib.redirect_stdout(sink):
             _, info = parse(apath, api="dynamo0.3", kernel_paths=[tmp])
             psy = PSyFactory("dynamo0.3", distributed_memory=False).create(info)
             text = str(psy.gen)
-    except (GenerationError, InternalError, ParseError,
-            NotImplementedError) as err:
-        res["notes"]["call_refused"] = type(err).__name__ + ": " + str(err)[:160]
+    except refusals as err:
+        for res in results:
+            res["notes"]["call_refused"] = (type(err).__name__ + ": "
+                                            + str(err)[:160])
+    except Exception as err:        # noqa  not a refusal: generation crashed
+        text = type(err).__name__ + ": " + str(err)
+        m = re.search(r"Original error was '(.*)'", text, re.S)
+        results[0]["notes"]["call_crashed"] = (
+            type(err).__name__ + ": " + (m.group(1) if m else str(err))[:300])
     else:
-        try:
-            res["call"] = itemise_call(text, md, code)
-            res["hc"] = True
-        except Unsupported as err:
-            res["notes"]["call_unsupported"] = str(err)
-        # the PSyIR form of the same call: the expressions (and the symbols
-        # with their types) that KernCallArgList passes
-        try:
-            from psyclone.domain.lfric import KernCallArgList, LFRicKern
-            kerns = psy.invokes.invoke_list[0].schedule.walk(LFRicKern)
-            if len(kerns) != 1:
-                raise Unsupported(f"{len(kerns)} kernels in the schedule")
-            alist = KernCallArgList(kerns[0])
-            alist.generate()
-            res["pcall"] = itemise_psyir(alist.arglist, alist.psyir_arglist, md)
-            res["hp"] = True
-        except Unsupported as err:
-            res["notes"]["psyir_unsupported"] = str(err)
-    os.unlink(kpath)
-    os.unlink(apath)
-    return res
+        scheduled = psy.invokes.invoke_list[0].schedule.walk(LFRicKern)
+        for (md, md_id, names), res in zip(kernels, results):
+            code = gen.kernel_names(md_id)[2]
+            try:
+                res["call"] = itemise_call(text, md, code, names)
+                res["hc"] = True
+            except Unsupported as err:
+                res["notes"]["call_unsupported"] = str(err)
+            # the PSyIR form of the same call: the expressions (and the
+            # symbols with their types) that KernCallArgList passes
+            try:
+                kerns = [k for k in scheduled if k.name.lower() == code]
+                if len(kerns) != 1:
+                    raise Unsupported(f"{len(kerns)} calls of {code} in the "
+                                      "schedule")
+                alist = KernCallArgList(kerns[0])
+                alist.generate()
+                res["pcall"] = itemise_psyir(alist.arglist,
+                                             alist.psyir_arglist, md, names)
+                res["hp"] = True
+            except Unsupported as err:
+                res["notes"]["psyir_unsupported"] = str(err)
+    for path in paths:
+        os.unlink(path)
+    return results
+
+
+def _one(md, md_id, tmp):
+    '''One metadata, called from an invoke of its own.'''
+    return _invoke([(md, md_id, gen.names_for(md))], md_id, tmp)[0]
+
+
+MULTI_BASE = 100000
+
+
+def _multi(mk, n, tmp):
+    '''A multi-kernel invoke [ks, act, qsh] (LFRicArgOrder!MultiOf): one case
+    per kernel call, each judged against its OWN metadata.'''
+    kernels = []
+    for k, md in enumerate(mk["ks"], 1):
+        kernels.append((md, MULTI_BASE + 10 * n + k,
+                        gen.names_for(md, k, mk["act"][k - 1], mk["qsh"])))
+    results = _invoke(kernels, MULTI_BASE + 10 * n, tmp)
+    for k, res in enumerate(results, 1):
+        res["invoke"] = {"n": n, "call": k, "act": mk["act"], "qsh": mk["qsh"],
+                         "kernels": [[a["t"] + ":" + a["acc"] + ":" + a["fs"]
+                                      + (":" + a["fs2"] if a["fs2"] else "")
+                                      + (":" + a["st"] if a["st"] != "none" else "")
+                                      + ("*" + str(a["vec"]) if a["vec"] > 1 else "")
+                                      for a in md["args"]] for md in mk["ks"]]}
+    return results
 
 
 def _work(chunk):
@@ -100,8 +149,11 @@ def _work(chunk):
     tmp = core.mktemp("pv-c21w-")
     out = []
     try:
-        for md_id, md in chunk:
-            out.append(_one(md, md_id, tmp))
+        for kind, ident, item in chunk:
+            if kind == "s":
+                out.append(_one(item, ident, tmp))
+            else:
+                out.extend(_multi(item, ident, tmp))
     finally:
         shutil.rmtree(tmp, ignore_errors=True)
     return out
@@ -252,7 +304,30 @@ def m_nfaces_re_h_undeclared(case, clause, detail, finding):
             and detail["got"] == "undeclared")
 
 
+def m_cma_ncol_symbol_missing(case, clause, detail, finding):
+    '''PSy-layer generation crashes: the same column-wise operator goes first
+    to a kernel that declares it on one space (to == from) and later to a
+    kernel that declares it on two different spaces; DynCMAOperators creates
+    the <op>_ncol symbol only from the first use.'''
+    if clause != "CallGenerated":
+        return False
+    if not re.search(r"Could not find the tag '\w+:ncol:cma_matrix'",
+                     detail.get("error", "")):
+        return False
+    inv = case.get("invoke")
+    if not isinstance(inv, dict):
+        return False
+    uses = {}
+    for kern, act in zip(inv["kernels"], inv["act"]):
+        for desc, ident in zip(kern, act):
+            part = desc.split(":")
+            if part[0] == "cma":
+                uses.setdefault(ident, []).append(part[2] == part[3])
+    return any(sq[0] and not all(sq) for sq in uses.values())
+
+
 MATCHERS = {
+    "c21_cma_ncol_symbol_missing": m_cma_ncol_symbol_missing,
     "c21_xory1d_direction_before_dofmap": m_xory1d_direction,
     "c21_refel_normals_real": m_refel_normals_real,
     "c21_funcs_basis_before_diff": m_funcs_order,
@@ -277,15 +352,19 @@ def enumerate_metadata(tier, cov):
                                   "invariants: "
                                   + str(res.invariant_violated or res.error))
     mds = res.printed("MD")
-    if len(mds) != res.distinct or not mds:    # every state printed once
-        raise core.MachineryError(f"metadata enumeration: {len(mds)} printed, "
-                                  f"{res.distinct} states")
+    mks = res.printed("MK")
+    if len(mds) + len(mks) != res.distinct or not mds:   # every state printed once
+        raise core.MachineryError(f"metadata enumeration: {len(mds)}+{len(mks)} "
+                                  f"printed, {res.distinct} states")
     cov["states"] += res.distinct
     cov["transitions"] += res.generated
     cov["model_states"] = res.distinct
-    keyed = sorted((json.dumps(m, sort_keys=True), m) for m in mds)
     stride = int(os.environ.get("PV_C21_STRIDE", "1"))     # development aid
-    return [m for _, m in keyed][::stride]
+    mds = [m for _, m in sorted((json.dumps(m, sort_keys=True), m)
+                                for m in mds)][::stride]
+    mks = [m for _, m in sorted((json.dumps(m, sort_keys=True), m)
+                                for m in mks)][::stride]
+    return mds, mks
 
 
 def decide(cases, tmp, cov, workers=None):
@@ -313,8 +392,9 @@ def run(tier):
     out = core.Outcome(PROP, tier, "model_checking", matchers=MATCHERS)
     cov = {"states": 0, "transitions": 0, "traces_validated_against_impl": 0,
            "samples": [], "exhaustive": True}
-    mds = enumerate_metadata(tier, cov)
-    jobs = list(enumerate(mds, 1))
+    mds, mks = enumerate_metadata(tier, cov)
+    jobs = ([("m", n, mk) for n, mk in enumerate(mks, 1)]
+            + [("s", i, md) for i, md in enumerate(mds, 1)])
     nchunk = max(1, min(len(jobs), core.NCPU * 6))
     chunks = [jobs[i::nchunk] for i in range(nchunk)]
     cases = [c for part in core.pool_map(_work, chunks, procs=_procs(),
@@ -329,12 +409,21 @@ def run(tier):
     for v in verdicts:
         c = by_id[v["id"]]
         case = {"md": c["md"], "kind": _kind(c["md"]),
+                "invoke": c.get("invoke", "single-kernel invoke"),
                 "kernel": gen.kernel_text(c["md"], c["id"]).splitlines()[7:-8],
                 "stub": [i["w"] + ":" + i["a"] + ":" + i["fs"] + ":" + i["x"]
                          for i in c["stub"]],
                 "call": [i["w"] + ":" + i["a"] + ":" + i["fs"] + ":" + i["x"]
                          for i in c["call"]]}
         out.violation(case, v["v"], v["w"])
+    # a generation that ends in an internal error (neither a product nor a
+    # refusal) is reported per invoke
+    for c in cases:
+        if "call_crashed" in c["notes"]:
+            case = {"md": c["md"], "kind": _kind(c["md"]),
+                    "invoke": c.get("invoke", "single-kernel invoke")}
+            out.violation(case, "CallGenerated",
+                          {"error": c["notes"]["call_crashed"]})
     # ------------------------------------------------------------- evidence
     n = len(cases)
     unsupported = [c for c in cases if "stub_unsupported" in c["notes"]
@@ -348,10 +437,14 @@ def run(tier):
                                                for c in cases)
     cov["evaluations"] = n
     cov["distinct_nontrivial"] = both
-    cov["metadata"] = n
+    cov["metadata"] = len(mds)
+    cov["multi_kernel_invokes"] = len(mks)
+    cov["multi_kernel_calls"] = sum(1 for c in cases if "invoke" in c)
+    cov["kernel_calls"] = n
     cov["call_and_stub"] = both
     cov["stub_refused"] = sum(1 for c in cases if "stub_refused" in c["notes"])
     cov["call_refused"] = sum(1 for c in cases if "call_refused" in c["notes"])
+    cov["invokes_crashed"] = sum(1 for c in cases if "call_crashed" in c["notes"])
     cov["unsupported"] = len(unsupported)
     cov["divergences"] = 0
     cov["positions_compared"] = sum(len(c["call"]) + len(c["stub"])
